@@ -414,6 +414,7 @@ def search(sim: Simulator, tier: str, seed: int, runs: Optional[int], workers: i
     t0 = time.time()
     print(f"VERIF_SEED={seed} property={sim.property_id} simulator={sim.name} tier={tier} "
           f"runs={cfg['runs']} workers={workers} repo={REPO_DIR}", flush=True)
+    sim.verif_seed = seed
     sim.prepare(tier)
     try:
         return _search(sim, tier, seed, cfg, workers, t0)
